@@ -4,6 +4,7 @@ import AiutiVerif.Buffer.Once
 import AiutiVerif.Buffer.Props
 import AiutiVerif.Buffer.Waits
 import AiutiVerif.Buffer.Terminates
+import AiutiVerif.Buffer.Burst
 /-!
 # Buffer property theorems at run level (C03 conservation, C07 barrier)
 
@@ -195,6 +196,28 @@ theorem C08_quiet_period_prefix (s0 : St) (hf : Fresh s0) (ht : 0 < s0.T) (hl : 
   have := (hq.startsQuiet t a hst).2 b hb
   rw [hT] at this
   exact this
+
+/-- **A burst is delivered together, in the one call that starts once it has been quiet for `T`.**
+For immediately available arguments and no forced flush (`QuietIn` programs), after every prefix of
+the inputs and every number of moves of the machine after it: whenever the background task is about
+to call the wrapped function (`pc = runfunc`), nothing is left in the queue, **every element
+submitted so far is in the round's input set or has already been delivered**, the latest submission
+is at least `T` old, and the next move is the call with exactly that input set.  So the arguments of
+a burst (submissions less than `T` apart, arriving while no call is running) cannot be split over
+several calls, and the call comes `T` after the last of them (`C08_quiet_period`: not earlier). -/
+theorem C08_burst_delivered_together (s0 : St) (hf : Fresh s0) (ht : 0 < s0.T) (hl : s0.lastSub = 0)
+    (hs : s0.subTimes = []) (ins : List In) (hin : ∀ i ∈ ins, QuietIn i) (n : Nat) :
+    let s := tickN n (ins.foldl applyIn s0)
+    s.pc = Pc.runfunc →
+      s.queue = [] ∧ (∀ x ∈ s.submitted, x ∈ s.inputs ∨ x ∈ s.delivered) ∧ s.lastSub + s.T ≤ s.now ∧
+      (s.inputs ≠ [] → ∃ s', tick s = some s' ∧ s'.outs = s.outs ++ [Out.start s.now (sortNat s.inputs)] ∧
+        s'.pc.isRunning = true) := by
+  intro s hpc
+  obtain ⟨hk0, _, hq0, hb0⟩ := all_foldl ins false s0 (K_fresh s0 hf) (L_fresh s0 hf) (Q_fresh s0 hf ht hl hs)
+    (InputOk_fresh s0 hf) (B_fresh s0 hf) hin
+  obtain ⟨hk, hq, hb⟩ := KQB_tickN n _ hk0 hq0 hb0
+  obtain ⟨h1, h2⟩ := runfunc_has_everything _ hk hb hpc
+  exact ⟨h1, h2, hq.firedR hpc, runfunc_calls _ hk hpc⟩
 
 /-- a burst 0, 500, 900 with `T = 1024`: one call, at 900 + 1024 -/
 example : (runProgram { T := 1024, outcomes := [] }
@@ -390,5 +413,17 @@ example : AtRest (tickN 9 (demoIns.foldl applyIn demoSt)) ∧ ¬ AtRest (tickN 8
   have := (atRest_iff _).mpr h
   revert this
   decide +kernel
+
+/-- the burst 0, 500, 900 (`T = 1024`): seven moves after the last submission the daemon is about to call
+(`C08_burst_delivered_together` is not vacuous), with the whole burst, at 900 + 1024 -/
+def burstIns : List In := [.submit 0 [(0, some 0)], .submit 500 [(0, some 1)], .submit 900 [(0, some 2)]]
+example : (∀ i ∈ burstIns, QuietIn i) ∧
+    (tickN 7 (burstIns.foldl applyIn { T := 1024, outcomes := [] })).pc = Pc.runfunc ∧
+    (tickN 7 (burstIns.foldl applyIn { T := 1024, outcomes := [] })).inputs = [0, 1, 2] ∧
+    (tickN 7 (burstIns.foldl applyIn { T := 1024, outcomes := [] })).now = 1924 := by
+  refine ⟨?_, by decide +kernel, by decide +kernel, by decide +kernel⟩
+  intro i hi
+  simp [burstIns] at hi
+  rcases hi with rfl | rfl | rfl <;> simp [QuietIn, pdur]
 
 end AiutiVerif.Buffer
